@@ -169,7 +169,7 @@ def _c20_extra(e, run, tier):
 
 PROPS = {
     "C04": {
-        "pins": ["tokenizers.Tokenizer.extract_tokens", "tokenizers.HyperscanTokenizer.extract_tokens", "tokenizers.Tokenizer.append_text", "models.CitationToken.merge",
+        "pins": ["tokenizers.Tokenizer.extract_tokens", "tokenizers.HyperscanTokenizer.extract_tokens", "models.CitationToken.merge",
                  "models.CitationBase.__post_init__", "models.ResourceCitation.__post_init__", "models.CitationToken.__post_init__", "helpers.get_court_by_paren",
                  "utils.strip_punct", "utils.is_balanced_html", "utils.wrap_html_tags", "annotate.SpanUpdater.get_diff_steps", "annotate.SpanUpdater.get_diff_steps_builtin",
                  "models.Document.__post_init__", "models.Document.tokenize"],
@@ -274,12 +274,14 @@ PROPS = {
         "not_covered": ["the parse step itself (output parses under lxml) is checked by the bounded stand-in only"],
     },
     "C12": {
-        "pins": ['tokenizers.Tokenizer.extract_tokens', 'tokenizers.HyperscanTokenizer.extract_tokens', 'tokenizers.Tokenizer.append_text', 'tokenizers.Tokenizer.get_extractors', 'models.CitationToken.merge', 'models.CitationToken.__post_init__', 'models.TokenExtractor.get_matches', 'models.TokenExtractor.get_token'],
+        "pins": ['tokenizers.Tokenizer.extract_tokens', 'tokenizers.HyperscanTokenizer.extract_tokens', 'tokenizers.Tokenizer.get_extractors', 'models.CitationToken.merge', 'models.CitationToken.__post_init__', 'models.TokenExtractor.get_matches', 'models.TokenExtractor.get_token'],
         "contracts": ["a_common", "helpers", "tokenizers"],
-        "functions": ["models.Token.from_match", "models.Token.merge", "tokenizers.token_is_from_nominative_reporter", "tokenizers.Tokenizer.tokenize"],
+        "functions": ["models.Token.from_match", "models.Token.merge", "tokenizers.token_is_from_nominative_reporter", "tokenizers.Tokenizer.append_text",
+                      "tokenizers.Tokenizer.tokenize"],
         "assumptions": ["CAND: every candidate token yielded by extract_tokens (both implementations) has 0 <= start <= end <= len(text) and its text is text[start:end] "
                         "(Token.from_match + E-RE-SPAN; the generator bodies and **extra construction are outside the subset; Hyperscan's own behaviour is C14)",
-                        "append_text (split on single spaces, separators kept) is an assumed contract: the appended plain words concatenate to the given text (E-STR split/join)",
+                        "append_text is VERIFIED (loop invariant SLICES over the split pieces, closed lemmas slices_append / slice_inner) against E-STR-SPLIT: "
+                        "s.split(' ') yields the maximal space-free pieces of s in order, separated by exactly one space each",
                         "CitationToken.merge is modelled by its frame (edition tuples only) and result (self or None)",
                         "E-CUM: cumulative-length function over token arrays with its frame and monotonicity consequences",
                         "E-SORTED: sorted() is a stable permutation with non-decreasing keys"],
